@@ -22,6 +22,7 @@ EXPLANATION = (
     " C01.e is decided on the term the disclosure constructors encode (sa/dtext.py: the text is evaluated across format!/join/push_str/helpers/argument structs/call sites and must normalise to [\"salt\", Q(key), value] / [\"salt\", value]; an escaper commutes only after JSON encoding and only if shown to copy ASCII unchanged and statelessly: exact transducer or sa/escaper.py). C01.a/c accept the kind-specific walkers on the payload of the matching pattern and unpackers whose digest lookup lives in a shared helper (judged in the views)."
     " C01.g: the honest round trip through key binding: every KB-JWT claim the verifier reads is written by the holder's builder, `aud` is written, and the holder's sd_hash text equals the verifier's for 0..3 disclosures (clause shared with C04.K4)."
     " C01.h: the JSON envelope this library writes can be read back by it (rule shared with C10.F4)."
+    " C01.i: which members are selectively disclosable is what the strategy designates: the path syntax and level / separator semantics of the strategy type (C05.P4 / P5) judged under C01."
 )
 ASSUMPTIONS = [
     "only the three structural clauses are claimed; equality of verified_claims with the selected view is not decided by any static argument available here",
